@@ -1428,6 +1428,18 @@ impl Vm {
 
   /// call a class creating a new instance of that class
   unsafe fn call_class(&mut self, class: ObjRef<Class>, arg_count: u8) -> ExecutionSignal { unsafe {
+    // instances hold their fields inline, the allocation supports at most 256 of them
+    if class.fields() > 256 {
+      return self.runtime_error_from_str(
+        self.builtin.errors.runtime,
+        &format!(
+          "Class {} has {} fields but an instance can have at most 256.",
+          class.name(),
+          class.fields()
+        ),
+      );
+    }
+
     let instance = val!(self.manage_obj(class));
     self.fiber.peek_set(arg_count as usize, instance);
 
